@@ -176,3 +176,43 @@ func UA(id int, x any) {
 		ev(18, id, -2)
 	}
 }
+
+// Walker is a named function type one can range over (go >= 1.23).
+type Walker func(yield func(int) bool)
+
+func Walk(id int) Walker {
+	spend()
+	ev(19, id, 0)
+	return func(yield func(int) bool) {
+		for i := 1; i <= 3; i++ {
+			if !yield(id*10 + i) {
+				return
+			}
+		}
+	}
+}
+
+// ---- helpers for optimiser-sensitive programs (C07 / C13) ----
+
+type Cell struct {
+	V    int
+	Next *Cell
+}
+
+func (c *Cell) Get() int       { return c.V }
+func (c *Cell) Valid() bool    { return c != nil }
+func (c Cell) Val() int        { return c.V }
+func (c Cell) Less(n int) bool { return c.V < n }
+
+type Src interface{ More() bool }
+
+type Counter struct{ N, Max int }
+
+func (c *Counter) More() bool { c.N++; return c.N <= c.Max }
+
+func Id[T any](x T) T             { return x }
+func Pair[K, V any](k K, v V) K   { return k }
+func Twice(x int) int             { spend(); ev(20, x, 0); return 2 * x }
+func Add(a, b int) int            { return a + b }
+func Sum(xs ...int) (s int)       { for _, x := range xs { s += x }; return }
+func Any(x int) any               { return x }
